@@ -1173,6 +1173,114 @@ fn c12_async_wait_after_tl_panic(rng: &mut Rng, pools: &mut Pools, rep: &mut Rep
     rep.metric("async_wait_after_tl_panic_cases", 1);
 }
 
+/// C12, hand-made scenario: while a dispatch of the async dispatcher is in flight (one system is
+/// parked inside run) the caller does something else with the dispatcher - setup, a second
+/// dispatch, world_mut, wait_without_tl. None of that runs a thread-local system; the wait() that
+/// follows runs each of them once, in order, on the calling thread.
+#[cfg(feature = "parallel")]
+fn c12_async_ops_in_flight(rng: &mut Rng, pools: &mut Pools, rep: &mut Report, case_no: u64) {
+    use crate::props::c15::Latch;
+    use crate::sys::{HSys, HTl};
+    use shred::DispatcherBuilder;
+    use std::sync::atomic::AtomicBool;
+    use std::time::Instant;
+    rep.evaluations += 1;
+    let pool_size = *rng.pick(&[2usize, 3, 4]);
+    let pool = pools.get(pool_size);
+    let ctx = Ctx::new(32, 4096);
+    let mut b = DispatcherBuilder::new();
+    b.add_pool(pool.clone());
+    let mut uid = 1u32;
+    let nsys = rng.range(1, 3);
+    let mut sys = Vec::new();
+    for _ in 0..nsys {
+        let sp = SysSpec { uid, name: String::new(), deps: vec![], reads: vec![], writes: vec![], time: 3, kind: Kind::Dyn };
+        sys.push(uid);
+        uid += 1;
+        b.add(HSys::new(&sp, &ctx), "", &[]);
+    }
+    let mut order = Vec::new();
+    for _ in 0..rng.range(1, 4) {
+        let t = TlSpec { uid, reads: vec![], writes: vec![] };
+        uid += 1;
+        order.push(t.uid);
+        b.add_thread_local(HTl::new(&t, &ctx));
+    }
+    let mut ad = b.build_async(crate::res::full_world());
+    let caller = tid();
+    ctx.set_mode(Mode::Run);
+    let mut history = Vec::new();
+    for _ in 0..rng.range(1, 3) {
+        let target = sys[rng.below(sys.len())];
+        let latch = Arc::new(Latch::new(target, Duration::from_secs(8)));
+        ctx.arm(latch.clone());
+        ctx.log.reset();
+        ad.dispatch();
+        if !wait_until(Instant::now() + Duration::from_secs(8), || latch.entered.load(SeqCst)) {
+            latch.open.store(true, SeqCst);
+            rep.inconclusive += 1;
+            break;
+        }
+        let op = rng.below(4);
+        let opname = ["setup()", "a second dispatch()", "world_mut()", "wait_without_tl()"][op];
+        let about = AtomicBool::new(false);
+        let r = std::thread::scope(|s| {
+            s.spawn(|| {
+                wait_until(Instant::now() + Duration::from_secs(8), || about.load(SeqCst));
+                std::thread::sleep(Duration::from_micros(300 + 100 * (target as u64 % 5)));
+                latch.open.store(true, SeqCst);
+            });
+            about.store(true, SeqCst);
+            std::panic::catch_unwind(std::panic::AssertUnwindSafe(|| match op {
+                0 => ad.setup(),
+                1 => ad.dispatch(),
+                2 => {
+                    let _ = ad.world_mut();
+                }
+                _ => ad.wait_without_tl(),
+            }))
+        });
+        history.push(format!("dispatch [u{} parked], {} while it is in flight", target, opname));
+        if latch.timed_out.load(SeqCst) {
+            rep.inconclusive += 1;
+            break;
+        }
+        if let Err(p) = r {
+            rep.violation("call_panicked:in_flight", &format!("{} while a dispatch was in flight panicked: {}", opname, payload_str(&*p)), case_no, J::obj().set("history", J::from(history.clone())));
+            break;
+        }
+        let early = tl_starts(&ctx.log.since(0), &order);
+        if !early.is_empty() {
+            rep.violation(
+                "tl_outside_wait:in_flight",
+                &format!("{} - called while a dispatch was in flight - ran thread-local systems {:?} (uid, thread); they run in wait() only", opname, early),
+                case_no,
+                J::obj().set("history", J::from(history.clone())),
+            );
+            break;
+        }
+        ctx.log.reset();
+        ad.wait();
+        history.push("wait".into());
+        let got = tl_starts(&ctx.log.since(0), &order);
+        let want: Vec<(u32, u16)> = order.iter().map(|u| (*u, caller)).collect();
+        if got != want {
+            rep.violation(
+                "tl_sequence:wait_after_in_flight_call",
+                &format!("wait() after [{}] started the thread-local systems as {:?} (uid, thread); due: {:?} once each, in this order, on thread {}", history.join("; "), got, order, caller),
+                case_no,
+                J::obj().set("history", J::from(history.clone())),
+            );
+            break;
+        }
+        rep.nontrivial(mix(0x12f1, mix(op as u64, order.len() as u64 * 8 + nsys as u64)));
+    }
+    ctx.set_mode(Mode::Build);
+    ctx.disarm();
+    let _ = ctx.take_violations();
+    rep.metric("async_calls_while_in_flight_cases", 1);
+}
+
 pub fn run(args: &Args, prop: &str, up: &'static str, quick: u64, thorough: u64, execute_every: u64) -> i32 {
     let mut rep = Report::new(args);
     let mut pools = Pools::new();
@@ -1196,6 +1304,11 @@ pub fn run(args: &Args, prop: &str, up: &'static str, quick: u64, thorough: u64,
         }
         if prop == "c12" && c % 40 == 13 {
             guard_case(&mut rep, c, |rep| c12_nested_tl_dispatcher(&mut rng, &mut pools, rep, c));
+            continue;
+        }
+        #[cfg(feature = "parallel")]
+        if prop == "c12" && c % 40 == 33 && !tiny() {
+            guard_case(&mut rep, c, |rep| c12_async_ops_in_flight(&mut rng, &mut pools, rep, c));
             continue;
         }
         #[cfg(feature = "parallel")]
